@@ -65,6 +65,9 @@ def generate(rng, tier, index, focus):
     grid = {"kind": "uniform", "spacing": specgen.SPACING} if rng.uniform() < 0.8 else specgen.rand_grid(rng, shape, 1.0)
     T = 3
     spec = {"shape": shape, "grid": grid, "steps": T, "faces": faces, "key": int(rng.integers(0, 2**31))}
+    # object names are unique per run: whatever the library may remember per object *name* across placements (objects hash
+    # and compare by name) is then first written by this run's own decoy scene, not by an earlier run of the same worker
+    tag = f"{int(rng.integers(0, 1 << 30)):x}"
     mtier = specgen.choice(rng, ["iso", "iso", "diag", "full"])
     dispersive = bool(mtier != "full" and rng.uniform() < 0.3)
     magnetic = bool(rng.uniform() < 0.2)
@@ -102,7 +105,7 @@ def generate(rng, tier, index, focus):
             mats = {"a": _mat(rng, mtier, dispersive=dispersive and rng.uniform() < 0.5), "b": _mat(rng, mtier, dispersive=dispersive)}
         else:
             mats = {f"m{j}": _mat(rng, mtier, dispersive=dispersive and not plain_dev and rng.uniform() < 0.6) for j in range(int(rng.integers(2, 5)))}
-        devices.append({"name": f"dev{i}", "box": box, "voxel": voxel, "mode": "continuous" if mode == "etched" else mode, "etch": mode == "etched", "materials": mats})
+        devices.append({"name": f"dev{i}_{tag}", "box": box, "voxel": voxel, "mode": "continuous" if mode == "etched" else mode, "etch": mode == "etched", "materials": mats})
     # probe cells: one static cell per device material in the x = 0 column (reference vectors)
     j = 0
     for dv in devices:
@@ -124,7 +127,7 @@ def generate(rng, tier, index, focus):
         box = [_intervals_relation(rng, dv["box"][a][0], dv["box"][a][1], shape[a], rel[a]) for a in range(3)]
         kind = specgen.choice(rng, ["dipole", "uniform_plane", "gaussian_plane"]) if all_iso else "dipole"
         cpw = float(rng.uniform(8, 14))
-        s = {"name": f"s{i}", "wavelength": cpw * specgen.SPACING, "profile": {"kind": "cw"}, "relation": rel}
+        s = {"name": f"s{i}_{tag}", "wavelength": cpw * specgen.SPACING, "profile": {"kind": "cw"}, "relation": rel}
         if kind == "dipole":
             p = [int(rng.integers(b[0], b[1])) for b in box]
             s.update({"kind": "dipole", "box": [[x, x + 1] for x in p], "polarization": int(rng.integers(0, 3)), "source_type": specgen.choice(rng, ["electric", "magnetic"]), "amplitude": 1.0})
@@ -143,7 +146,7 @@ def generate(rng, tier, index, focus):
                 s["radius"] = 2.5 * specgen.SPACING
         srcs.append(s)
     for i in range(int(rng.integers(0, 3))):
-        dets.append(specgen.rand_field_detector(rng, f"d{i}", shape, T, switch=False))
+        dets.append(specgen.rand_field_detector(rng, f"d{i}_{tag}", shape, T, switch=False))
     spec["sources"], spec["detectors"] = srcs, dets
     ops = []
     for _ in range(int(rng.integers(2, 6))):
